@@ -9,9 +9,11 @@ ASSUMPTIONS = [
     "ROA/ASPA/BGPsec object updates that accompany a received certificate or a configuration change are inputs of the model "
     "(their computation belongs to C01/C05); at key activation the model re-issues every product, as the code does",
     "repository migration (old_repo) and the staging/initiate durations (always 0 in the harness) are not modelled",
-    "roll_completes_partial is about the class's key-state machine (Ca/KeySync.lean) with an answering parent; its tie to the "
-    "manager-level sync is the lock-step run, not a proof; at the Sys level KeyRollActivate is refused as a whole while any class "
-    "has a new key with open requests, and child certificates with request limits can make shrink/activation fail",
+    "roll_completes: at the Sys level every roll step is proved to be stored from EVERY reachable state (roll_initiate_progress, "
+    "roll_receive_progress, roll_activate_progress, roll_finish_progress, composed in roll_completes_from_pending); activation "
+    "needs Rc.activatable for every class with a new key (no open request for its keys; every child certificate carries its limit "
+    "and lies inside the new key's certificate) - KeyRollActivate is refused as a whole otherwise; roll_completes_partial is the "
+    "class key-state machine with an answering parent (which sync sends what), tied to the manager-level sync by the lock-step run",
     "no_loss_no_dup_partial assumes objects_mirror (C01: before the activation command the current set publishes what the class "
     "holds); that no key is both issued and suspended is proved for every history (fix bb96d233)",
     "listener_accepts_partial excludes a revocation request that names a class which is still pending (no object sets yet): "
@@ -44,14 +46,20 @@ MANIFEST = {
             "product and child certificate to the new key's set and empties the old one (activation_moves_everything, "
             "no_loss_no_dup_partial; pinned_activation_loses_stale_child is the loss on the pinned tree); the finish command leaves one set "
             "(finish_removes_old_set); a second initiate emits nothing (second_roll_noop); two rounds of (sync, activate, sync) complete "
-            "every roll of the class key-state machine (roll_completes_partial). Tied to the code by lock-step execution of the model "
+            "every roll of the class key-state machine (roll_completes_partial) and at the Sys level each roll step is stored from every "
+            "reachable state and reaches the next roll state (roll_*_progress, roll_completes_from_pending); a stored revocation leaves "
+            "no certificate for the key (revoke_removes_certificate). Tied to the code by lock-step execution of the model "
             "against an in-process krill (every stored command: events predicted by process, observed events applied by the partial "
             "apply and the listener model, state compared with CertAuth and CaObjects) on hand-written scenarios and seeded histories, "
             "and by the theorem predicates evaluated on the implementation's own state",
-    "note": "Kernel-checked theorems are about the model. Partial: listener_accepts excludes revocation for a class still pending "
-            "(error, not stored); no_loss_no_dup needs objects_mirror (C01); roll_completes is proved on the class key-state machine, "
-            "not lifted to the multi-class Sys level. F-C02-1, F-C03-1, F-C04-1 are fixed (bb96d233, 43d7eca0): their scenarios stay in "
-            "the corpus and fail the check if the behaviour returns. Open: F-C04-2 (activation re-issues ROAs outside a shrunken new "
+    "note": "Kernel-checked theorems are about the model. Still unproved: (1) no_loss_no_dup needs C01's objects_mirror as a hypothesis "
+            "(before activation the current set publishes what the class holds); (2) listener_accepts excludes revocation for a class "
+            "still pending (error, not stored); (3) roll completion: each roll step is proved to succeed from every reachable state, "
+            "but that the activatable hypothesis eventually holds (the parent certifies the new key with at least the resources of the "
+            "child certificates; open requests get answered) and which sync sends which request is proved only on the class key-state "
+            "machine (roll_completes_partial), not for the manager-level sync of two aggregates; (4) the proxy/signer exchange under "
+            "the TA is exercised by traces only. F-C02-1, F-C03-1, F-C04-1 are fixed (bb96d233, 43d7eca0): their scenarios stay in the "
+            "corpus and fail the check if the behaviour returns. Open: F-C04-2 (activation re-issues ROAs outside a shrunken new "
             "certificate) and F-C04-3 (a mapping to a class the parent does not have may shadow the class a child is certified under: "
             "its revocation is then ignored for ever). Real cryptography, manifests/CRLs and the wall clock are outside the model.",
     "technique": "Lean 4 proof (invariants by induction over command histories, finite abstraction + decide, concrete counter-examples) "
